@@ -188,7 +188,11 @@ def save_performance_midi(
                 )
             )
 
-        for n in performed_part.notes:
+        # write the notes in order of time: when the release of a note and the next
+        # onset of the same pitch fall on the same tick, the note off must come first
+        for n in sorted(
+            performed_part.notes, key=lambda n: (n["note_on"], n["note_off"])
+        ):
             track = n.get("track", 0)
             ch = n.get("channel", 1)
             t_on = int(np.round(10**6 * ppq * n["note_on"] / mpq))
